@@ -241,6 +241,10 @@ pub struct Plan {
     pub accept_pace: usize,
     /// run the black-box leak probe (Acknowledge(id,0) for every id ever used) at the end
     pub probe_leaks: bool,
+    /// once an endpoint's connection task has returned, its application makes fresh calls
+    /// (new_stream_channel, request_bind, send_datagram): "every later operation completes"
+    #[serde(default)]
+    pub late_ops: bool,
 }
 impl Plan {
     pub fn base() -> Plan {
@@ -257,6 +261,7 @@ impl Plan {
             accept: [true, true],
             accept_pace: 0,
             probe_leaks: false,
+            late_ops: false,
         }
     }
 }
@@ -357,6 +362,8 @@ pub struct Ledger {
     /// stream objects kept alive to the end of the run
     pub held: Vec<MuxStream>,
     pub held_binds: Vec<penguin_mux::BindRequest<'static>>,
+    /// calls made after the connection task returned: (name, invoked, returned, result)
+    pub late: [Vec<(&'static str, u64, Option<u64>, String)>; 2],
 }
 impl Ledger {
     pub fn violate(&mut self, class: &str, msg: String) {
@@ -848,13 +855,49 @@ async fn run_async(plan: Plan, sched: Sched, record: bool) -> DuoRun {
         let cfg = &plan.eps[me];
         let rng = ScriptRng { vals: Arc::new(Mutex::new(cfg.ids.iter().copied().collect())), base: ((me as u32) + 1) << 28, ctr: 0 };
         let (m, t) = Multiplexor::new_detailed::<_, SimInstant>(SimWs { link: link.clone(), me }, cfg.options(), rng);
-        let (led2, seq2) = (led.clone(), seq.clone());
+        let m = Rc::new(m);
+        let (led2, seq2, weak, cancel, late) = (led.clone(), seq.clone(), Rc::downgrade(&m), cancels[me].clone(), plan.late_ops);
         sim.spawn(&format!("conn{me}"), if me == 0 { CLS_CONN0 } else { CLS_CONN1 }, async move {
             let r = t.into_task().await;
             let now = seq2.tick();
             led2.borrow_mut().task_end[me] = Some((now, format!("{r:?}")));
+            if !late {
+                return;
+            }
+            // the application keeps using its handle after the connection is gone
+            let Some(m) = weak.upgrade() else { return };
+            for name in ["new_stream_channel", "request_bind", "send_datagram", "request_bind"] {
+                sim_yield().await;
+                let inv = seq2.tick();
+                let k = {
+                    let mut l = led2.borrow_mut();
+                    l.late[me].push((name, inv, None, String::new()));
+                    l.late[me].len() - 1
+                };
+                let res = match name {
+                    "new_stream_channel" => cancel.run(m.new_stream_channel(b"late", 1)).await.map(|r| match r {
+                        Ok(_) => "Ok(stream)".to_string(),
+                        Err(e) => format!("Err({e:?})"),
+                    }),
+                    "request_bind" => cancel.run(m.request_bind(b"late", 1, BindType::Stream)).await.map(|r| format!("{r:?}")),
+                    _ => cancel.run(m.send_datagram(penguin_mux::Datagram { flow_id: 7, target_host: bytes::Bytes::from_static(b"late"), target_port: 1, data: bytes::Bytes::from_static(b"late") })).await.map(|r| format!("{r:?}")),
+                };
+                let now = seq2.tick();
+                let mut l = led2.borrow_mut();
+                match res {
+                    None => {
+                        l.late[me][k].2 = Some(now);
+                        l.late[me][k].3 = "cancelled".into();
+                        return;
+                    }
+                    Some(x) => {
+                        l.late[me][k].2 = Some(now);
+                        l.late[me][k].3 = x;
+                    }
+                }
+            }
         });
-        muxes.borrow_mut()[me] = Some(Rc::new(m));
+        muxes.borrow_mut()[me] = Some(m);
     }
     let sp = sim.spawner();
     // ---- acceptors
